@@ -989,18 +989,6 @@ func genTags(pool []ID) []uint32 {
 
 func pick(pool []ID) ID { return pool[rng.Intn(len(pool))] }
 
-// subLeaf is genLeaf for packets that reach Listener.talkSub: an SvHello without a payload from
-// an unregistered device makes talkSub spin forever (readDeviceInfo -> io.ReadFull on a Chunk
-// that was never written: Chunk.Read returns (0, nil)); talk refuses that packet, talkSub does
-// not.  That hang is a C04 matter and is kept out of these histories.
-func subLeaf(pool []ID, dev ID) leaf {
-	l := genLeaf(pool, dev)
-	if l.pid == c2.SvHello && l.body == bEmpty {
-		l.body = bBadHello
-	}
-	return l
-}
-
 func genOp(pool []ID) *op {
 	switch r := rng.Intn(100); {
 	case r < 40:
@@ -1023,11 +1011,11 @@ func genOp(pool []ID) *op {
 	case r < 68:
 		p := &pkt{kind: kMultiDev, dev: pick(pool), job: nextJob(), tags: genTags(pool)}
 		for i, n := 0, rng.Intn(5); i < n; i++ {
-			p.subs = append(p.subs, subLeaf(pool, pick(pool)))
+			p.subs = append(p.subs, genLeaf(pool, pick(pool)))
 		}
 		return &op{kind: oTalk, p: p}
 	case r < 76:
-		return &op{kind: oTalkSub, n: subLeaf(pool, pick(pool)), o: rng.Intn(4) == 0}
+		return &op{kind: oTalkSub, n: genLeaf(pool, pick(pool)), o: rng.Intn(4) == 0}
 	case r < 86:
 		return &op{kind: oSend, d: pick(pool), pid: uint8(0xD0 + rng.Intn(8)), job: nextJob()}
 	case r < 92:
